@@ -4,7 +4,13 @@ projects the real object graph to the abstract state (children, parent).
 
 Nothing here decides the property: it only executes and serialises.'''
 
+import sys
+
 _FACT = None
+# A cyclic tree makes update_signal recurse until RecursionError; the outcome
+# does not depend on the limit, a low one makes those cases ~8x cheaper.  Calls
+# on these <= 8-node trees nest a few dozen frames at most.
+_RECURSION_LIMIT = 220
 
 
 class Unsupported(Exception):
@@ -190,6 +196,7 @@ def run_group(job):
     [pre_ch, pre_pa, op, raised, exc, post_ch, post_pa, how] or
     [None, None, op, -1, reason, None, None, how].'''
     kinds, target, path, ops = job
+    sys.setrecursionlimit(_RECURSION_LIMIT)
     out = []
     how_cached = None
     for op in ops:
@@ -216,6 +223,7 @@ def run_history(job):
     can keep using; the TLC trace spec judges every recorded step, so the
     history is cut by the caller at the first failing verdict.'''
     kinds, init, ops = job
+    sys.setrecursionlimit(_RECURSION_LIMIT)
     world, how = reach(kinds, init, None)
     if world is None:
         return [[None, None, ops[0] if ops else None, -1, how, None, None, how]]
